@@ -86,6 +86,18 @@ def gen_cases(seed, count):
     return cases
 
 
+def t10_subset():
+    """Spec/SenseFmt.v t10_asc_subset -> {asc*256+ascq: TEXT}"""
+    import vlib
+    txt = open(os.path.join(vlib.COQ, "Spec", "SenseFmt.v")).read()
+    txt = re.sub(r"\(\*.*?\*\)", "", txt, flags=re.S)
+    m = re.search(r"Definition t10_asc_subset.*?:= \[(.*?)\]\.", txt, re.S)
+    return {int(a) * 256 + int(b): t for a, b, t in re.findall(r'\((\d+) \* 256 \+ (\d+), "([^"]*)"\)', m.group(1))}
+
+
+_T10 = {}
+
+
 STR_RE = re.compile(r"^Check Condition: (.*)\(0x([0-9A-F]{2})\) ASC\+Q:(.*)\(0x([0-9A-F]{4})\)$", re.S)
 UNK_RE = re.compile(r"^Check Condition: unknown sense data format \(response code 0x([0-9A-F]{2})\)$")
 
@@ -117,6 +129,11 @@ def oracle(s, r):
         m = STR_RE.match(r["str"][1])
         if not m or int(m.group(2), 16) != exp[0] or int(m.group(4), 16) != exp[1] * 256 + exp[2]:
             return "text %r does not report key %#x / ASCQ %#06x" % (r["str"][1], exp[0], exp[1] * 256 + exp[2])
+        if not _T10:
+            _T10.update(t10_subset())
+        want = _T10.get(exp[1] * 256 + exp[2])
+        if want is not None and m.group(3).strip().upper() != want.upper():
+            return "ASC/ASCQ %02Xh/%02Xh is assigned by T10 as %r but is described as %r" % (exp[1], exp[2], want, m.group(3))
     return None
 
 
